@@ -1,6 +1,7 @@
 // C17: constructions built on geodesics — NearestNeighbor (C17_nn.hpp), AzimuthalEquidistant / Gnomonic / CassiniSoldner
 // (C17_proj.hpp), Intersect (C17_isect.hpp: oracles; C17_ixm.hpp, C17_ixs.hpp: the Lean models of the helpers and of the search bookkeeping)
 #include "common.hpp"
+#include "C17_tools.hpp"
 #include "C17_nn.hpp"
 #include "C17_proj.hpp"
 #include "C17_isect.hpp"
@@ -10,12 +11,13 @@
 void gv::generate(const std::string& tier, uint64_t seed) {
   bool thorough = tier == "thorough";
   gv::Rng r(seed);
-  // C17_ONLY=nn|proj|ixm|isect|ixs restricts the run to one part (development aid; the check never sets it)
+  // C17_ONLY=nn|proj|ixm|isect|ixs|tools restricts the run to one part (development aid; the check never sets it)
   const char* only = std::getenv("C17_ONLY"); auto on = [&](const char* p) { return !only || std::string(only) == p; };
   { gv::Rng r1(r.next()); if (on("nn")) c17nn::generate(r1, thorough); }
   { gv::Rng r2(r.next()); if (on("proj")) c17proj::generate(r2, thorough); }
   { gv::Rng r4(r.next()); if (on("ixm")) c17ixm::generate(r4, thorough); }
   { gv::Rng r3(r.next()); if (on("isect")) c17isect::generate(r3, thorough); }
   { gv::Rng r5(r.next()); if (on("ixs")) c17ixs::generate(r5, thorough); }
+  { gv::Rng r6(r.next()); if (on("tools")) c17tools::generate(r6, thorough); }
 }
 int main(int c, char** v) { return gv::main_(c, v); }
